@@ -143,6 +143,8 @@ def run(F, chk):
     X1.floor('rename_map inserts', nins, 1)
     X3 = chk.rule('X3', 'the volume chain never signals end-of-data early: a zero-byte inner read with volumes remaining is retried')
     check_chain_eof(F, X3)
+    X4 = chk.rule('X4', 'volume readers are positioned with absolute seeks; a relative seek needs a dominating rel_pos != 0 guard (lazy reset invariant)')
+    check_chain_relative_seek(F, X4)
 
 
 # ---------------------------------------------------------------------------------------------
@@ -206,3 +208,55 @@ def check_chain_eof(F, X3):
             else:
                 X3.violation(('early-eof', b.path), 'SeekableChain::read returns the count of a single inner read at %s without retrying when that count is 0 while volumes remain: an empty (or exactly exhausted) volume makes the chain signal end-of-data early' % b.loc(s.sp),
                              where=b.loc(s.sp))
+
+
+# ---------------------------------------------------------------------------------------------
+# X4: lazy volume reset - a volume reader's position is only known when rel_pos != 0
+
+def check_chain_relative_seek(F, X4):
+    """SeekableChain resets a volume's reader lazily (`if rel_pos == 0 { reader.seek(Start(0)) }` at the next read), so
+    while rel_pos == 0 the position of the current volume's reader is unknown (stale from an earlier visit).  Hence a
+    *relative* seek on a volume reader (SeekFrom::Current / seek_relative / stream_position arithmetic) is only sound under
+    a dominating `rel_pos != 0` guard; absolute seeks (SeekFrom::Start) are always fine."""
+    bs = [b for b in F.order if 'adlt::utils::seekablechain::SeekableChain' in b.path and b.crate == 'lib']
+    X4.floor('SeekableChain bodies', len(bs), 3)
+    n_abs = 0
+    for b in bs:
+        cfg = CFG(b)
+        E = ExprBuilder(cfg, fold_named=True)
+        for blk in b.calls():
+            t = blk.term
+            p = t.callee.path
+            a0 = (t.args[0].ty or '') if t.args else ''
+            if 'SeekableChain' in a0:
+                continue   # calls on the chain itself
+            rel = None
+            if p.endswith('Seek::seek') and len(t.args) > 1:
+                arg = show(E.operand(t.args[1]))
+                if 'SeekFrom::Start' in arg:
+                    n_abs += 1
+                    continue
+                if 'SeekFrom::End' in arg:
+                    continue
+                rel = 'seek(%s)' % arg[:40]
+            elif p.endswith('Seek::seek_relative') or p.endswith('::seek_relative'):
+                rel = 'seek_relative'
+            if rel is None:
+                continue
+            X4.sites += 1
+            X4.fn(b.path)
+            ok = False
+            for (c, truth, D) in guards.known(cfg, E, blk.i):
+                sc = show(c)
+                if 'rel_pos' in sc and ((sc.startswith('Ne(') and sc.endswith(', 0)') and truth is True) or (sc.startswith('Eq(') and sc.endswith(', 0)') and truth is False) or
+                                        (sc.startswith('Gt(') and sc.endswith(', 0)') and truth is True)):
+                    ok = True
+            if ok:
+                X4.ok(sample={'function': b.path, 'relative_seek_at': b.loc(t.sp), 'guard': 'rel_pos != 0'})
+            else:
+                X4.violation(('relative-seek-on-unknown-position', b.path, rel.split('(')[0]),
+                             '%s performs a relative seek (%s) on a volume reader at %s without a dominating `rel_pos != 0` guard: after a switch to the next volume the reader still sits at a stale offset (it is only reset lazily at the next read), '
+                             'so the chain no longer behaves like the concatenated file' % (b.path, rel, b.loc(t.sp)), where=b.loc(t.sp))
+    X4.floor('absolute seeks (SeekFrom::Start) on volume readers', n_abs, 2)
+    if X4.obligations == X4.discharged and not any(v for v in X4.violations):
+        X4.ok(sample={'relative_seeks_on_volume_readers': X4.sites, 'absolute_seeks': n_abs})
